@@ -135,20 +135,25 @@ def main():
     p.add_argument("name"); p.add_argument("prop"); p.add_argument("change"); p.add_argument("demo_diff")
     p.add_argument("--demo", required=True); p.add_argument("--needs", default=""); p.add_argument("--also", default=""); p.add_argument("--tier", default="quick")
     p = sub.add_parser("run"); p.add_argument("name"); p.add_argument("--tier", default="quick"); p.add_argument("--in-repo", action="store_true")
-    p = sub.add_parser("runall"); p.add_argument("--tier", default="quick"); p.add_argument("--in-repo", action="store_true")
+    p = sub.add_parser("runall"); p.add_argument("--tier", default="quick"); p.add_argument("--in-repo", action="store_true"); p.add_argument("--jobs", type=int, default=1)
     a = ap.parse_args()
     if a.cmd == "add":
         add(a)
     elif a.cmd == "run":
         run_one(a.name, a.tier, a.in_repo)
     elif a.cmd == "runall":
-        tot = det = 0
+        names = []
         for n in sorted(os.listdir(SEEDED)):
             mp = os.path.join(SEEDED, n, "meta.json")
             if os.path.exists(mp) and json.load(open(mp)).get("confirmed"):
-                tot += 1
-                det += 1 if run_one(n, a.tier, a.in_repo) else 0
-        print(f"detected {det} of {tot} confirmed seeded changes")
+                names.append(n)
+        if a.jobs > 1 and not a.in_repo:
+            import concurrent.futures as cf
+            with cf.ThreadPoolExecutor(max_workers=a.jobs) as ex:
+                res = list(ex.map(lambda n: run_one(n, a.tier, False), names))
+        else:
+            res = [run_one(n, a.tier, a.in_repo) for n in names]
+        print(f"detected {sum(1 for r in res if r)} of {len(names)} confirmed seeded changes")
 
 
 if __name__ == "__main__":
